@@ -1,6 +1,110 @@
-(* Props/C04.v — property theorems only. *)
+(* Props/C04.v -- property theorems only (C04 Simplify preserves behaviour).
+   Model: Syntax/Simplify.v (syntax/simplify.go after the fix that leaves dollar-double-quoted
+   strings alone).  Scope predicates wf_* are what the parser guarantees (checked on every run
+   by the code leg): a double-quoted literal does not end inside an escape; the operand of
+   ++/-- and the left operand of an assignment is one literal word. *)
 From Verif Require Import Base.Str Syntax.Simplify Proofs.SimplifyProofs.
 
-Theorem C04_placeholder : True.
-Proof. exact placeholder_true. Qed.
-Print Assumptions C04_placeholder.
+(* arithmetic: the simplified expression has the same value AND leaves the same variable
+   updates, for every integer environment; itoa/atoi are the shell's decimal conversions *)
+Theorem C04_arith :
+  forall (itoa : Z -> str) (atoi : str -> Z) pother binop assignop unop,
+    (forall z, atoi (itoa z) = z) -> (forall z, valid_name (itoa z) = false) ->
+    forall parens inline e, wf_arith e = true ->
+    exists e' m, simplify_arith parens inline e = Some (e', m) /\
+      forall env, aeval itoa atoi pother binop assignop unop e' env =
+                  aeval itoa atoi pother binop assignop unop e env.
+Proof. exact simplify_arith_sound. Qed.
+Print Assumptions C04_arith.
+
+(* the same with a concrete decimal itoa/atoi: the two hypotheses are satisfiable *)
+Theorem C04_arith_decimal :
+  forall pother binop assignop unop parens inline e, wf_arith e = true ->
+    exists e' m, simplify_arith parens inline e = Some (e', m) /\
+      forall env, aeval itoa_dec atoi_dec pother binop assignop unop e' env =
+                  aeval itoa_dec atoi_dec pother binop assignop unop e env.
+Proof. exact (fun po b a u => simplify_arith_sound itoa_dec atoi_dec po b a u atoi_itoa_dec itoa_dec_not_name). Qed.
+Print Assumptions C04_arith_decimal.
+
+(* [[ ]]: whenever the original expression has a truth value the simplified one has the same
+   (Panic = a tree the parser does not build: a non-word operand of a word operator) *)
+Theorem C04_test :
+  forall pval pmatch untest_o bintest_o e, wf_test e = true ->
+    exists e' m, simplify_test e = Some (e', m) /\
+      forall b, teval pval pmatch untest_o bintest_o e = Ok b -> teval pval pmatch untest_o bintest_o e' = Ok b.
+Proof. exact simplify_test_sound. Qed.
+Print Assumptions C04_test.
+
+(* words: the expansion (bytes and which of them are quoted) is unchanged *)
+Theorem C04_word :
+  forall pval w, wf_word w = true -> expand_q pval (fst (simplify_word w)) = expand_q pval w.
+Proof. exact simplify_word_expand. Qed.
+Print Assumptions C04_word.
+
+(* dollar-double-quoted strings: left alone by the repaired code ... *)
+Theorem C04_word_dollar_untouched :
+  forall ps rest, simplify_word (WDbl true ps :: rest) = (WDbl true ps :: rest, false).
+Proof. exact simplify_word_dollar_untouched. Qed.
+Print Assumptions C04_word_dollar_untouched.
+
+(* ... because the rewrite of the unchanged tree (simplify_word_prefix, Dollar kept) changed the
+   expansion: the witness of the refuted statement, dollar-dquote a\\b became dollar-squote a\b *)
+Theorem C04_word_dollar_refuted_before_fix :
+  exists w, forall pval, expand_q pval (fst (simplify_word_prefix w)) <> expand_q pval w.
+Proof. exact (ex_intro _ _ (proj2 dollar_rewrite_differs)). Qed.
+Print Assumptions C04_word_dollar_refuted_before_fix.
+
+(* nested subshells: same final state, output and status for every abstract command semantics *)
+Theorem C04_subshell :
+  forall State run_other modify set_status c,
+    exists c' m, simplify_cmd c = Some (c', m) /\
+      forall s, sem_cmd State run_other modify set_status c' s = sem_cmd State run_other modify set_status c s.
+Proof. exact simplify_cmd_sound. Qed.
+Print Assumptions C04_subshell.
+
+(* the returned bool is true exactly when the tree changed *)
+Theorem C04_modified_iff_word : forall w, snd (simplify_word w) = true <-> fst (simplify_word w) <> w.
+Proof. exact simplify_word_mod_iff. Qed.
+Print Assumptions C04_modified_iff_word.
+
+Theorem C04_modified_iff_arith :
+  forall parens inline e e' m, simplify_arith parens inline e = Some (e', m) -> (m = true <-> e' <> e).
+Proof. exact simplify_arith_mod. Qed.
+Print Assumptions C04_modified_iff_arith.
+
+Theorem C04_modified_iff_test : forall e e' m, simplify_test e = Some (e', m) -> (m = true <-> e' <> e).
+Proof. exact simplify_test_mod. Qed.
+Print Assumptions C04_modified_iff_test.
+
+Theorem C04_modified_iff_cmd : forall c c' m, simplify_cmd c = Some (c', m) -> (m = true <-> c' <> c).
+Proof. exact simplify_cmd_mod. Qed.
+Print Assumptions C04_modified_iff_cmd.
+
+(* non-vacuity: concrete trees in scope that Simplify changes *)
+Open Scope N_scope.
+(* $(( ($a) + ((b)) ))  ->  a + (b), with a=3 b=4 both evaluate to 7 *)
+Example C04_arith_example :
+  let e := ABin 100 (AParen (AWord [WParam true 0 [97]])) (AParen (AParen (AWord [WLit [98]]))) in
+  wf_arith e = true /\
+  simplify_arith true true e = Some (ABin 100 (AParen (AWord [WLit [97]])) (AParen (AWord [WLit [98]])), true) /\
+  aeval itoa_dec atoi_dec (fun _ _ _ => []) (fun _ x y => Ok (x + y)%Z) (fun _ _ y => Ok y) (fun _ x => Ok x)
+        e [([97], 3%Z); ([98], 4%Z)] = Ok (7%Z, [([97], 3%Z); ([98], 4%Z)]).
+Proof. vm_compute. repeat split. Qed.
+
+(* [[ ! -z "$a" ]] -> [[ -n $a ]] *)
+Example C04_test_example :
+  let e := TUn T_NOT (TUn T_EMP (TWord [WDbl false [DParam true 0 [97]]])) in
+  wf_test e = true /\ simplify_test e = Some (TUn T_NEMP (TWord [WParam true 0 [97]]), true).
+Proof. vm_compute. split; reflexivity. Qed.
+
+(* "a\$b" -> 'a$b' ; both expand to the quoted bytes a $ b *)
+Example C04_word_example :
+  let w := [WDbl false [DLit [97; 92; 36; 98]]] in
+  wf_word w = true /\ simplify_word w = ([WSgl false [97; 36; 98]], true) /\
+  expand_q (fun _ _ _ => []) w = [(97, true); (36, true); (98, true)].
+Proof. vm_compute. repeat split. Qed.
+
+(* ( ( (c1) ) ) -> (c1) *)
+Example C04_subshell_example :
+  simplify_cmd (CSub [St true (CSub [St true (CSub [St true (COther 1)])])]) = Some (CSub [St true (COther 1)], true).
+Proof. vm_compute. reflexivity. Qed.
